@@ -163,11 +163,11 @@ def gen_sample(rng, kind, n):
 def gen_tau(rng, n):
     c = rng.integers(0, 8)
     if c == 0:
-        return 1e-3, "lo"
+        return float(rng.choice([1e-3, 4e-4, 1e-6, 3e-9])), "lo"
     if c == 1:
         return 0.5, "half"
     if c == 2:
-        return 1 - 1e-3, "hi"
+        return 1 - float(rng.choice([1e-3, 4e-4, 1e-6, 3e-9])), "hi"
     if c == 3:  # tau*n an exact integer (dyadic tau): flat stretch of the loss
         k = 2 ** int(rng.integers(1, 6))
         return float(rng.integers(1, k)) / k, "dyadic"
@@ -649,7 +649,7 @@ def gen_case(seed, shard, i):
     k = int(rng.choice([1, 1, 1, 2, 3, 5, 9]))
     vt = np.sort(rng.uniform(0.001, 0.999, k))
     if rng.random() < 0.3:
-        vt[0] = rng.choice([1e-3, 0.5, 1 - 1e-3])
+        vt[0] = rng.choice([1e-3, 0.5, 1 - 1e-3, 2e-5, 1 - 2e-5, 1e-9, 1 - 1e-9])
         vt = np.sort(vt)
     yo = y[:nv]
     if dtype == "int64":
